@@ -139,6 +139,8 @@ pub struct Shadow {
     pub recent: BTreeMap<usize, (usize, u64)>,
     /// objects in never-collected spaces that became unreachable: must stay intact for ever
     pub immortal_garbage: Vec<SObj>,
+    /// ephemeron table of the binding (key id, value id): the value is reachable iff the key is
+    pub ephemerons: Vec<(u64, u64)>,
 }
 
 #[derive(Default, Clone, Debug)]
@@ -162,6 +164,8 @@ pub struct WorldStats {
     pub allocs_after_reclaim: u64,
     pub immortal_checked: u64,
     pub two_mutator_gcs: u64,
+    pub weak_extra_rounds: u64,
+    pub weak_entries_died: u64,
 }
 
 pub struct World {
@@ -179,6 +183,13 @@ pub struct World {
     pub last_report: GcReport,
     /// a collection since the last reset reclaimed something while other objects stayed live
     pub reclaimed_next_to_live: bool,
+    /// publish the expected closure stages to the binding before every requested collection
+    pub expect_weak_stages: bool,
+    pub monitor_c13: bool,
+    /// number of `process_weak_refs` calls the requested collection must make (set by `gc`)
+    pub expected_weak_calls: Option<usize>,
+    /// the collection being verified was requested by the harness and traced the whole heap
+    pub gc_traced_whole_heap: bool,
 }
 
 /// A violation found by the world: (signature class, message).
@@ -223,6 +234,10 @@ impl World {
             monitor_c11: true,
             last_report: GcReport::default(),
             reclaimed_next_to_live: false,
+            expect_weak_stages: false,
+            monitor_c13: true,
+            expected_weak_calls: None,
+            gc_traced_whole_heap: false,
             cfg,
         };
         w.bind(0);
@@ -447,11 +462,24 @@ impl World {
         }
         let before = with_state(|s| s.gc_count);
         note_request_base();
+        self.gc_traced_whole_heap = exhaustive || !self.mmtk.get_plan().constraints().generational;
+        if !self.shadow.ephemerons.is_empty() || self.expect_weak_stages {
+            let stages: Vec<Vec<usize>> = self.shadow_reachable_stages().iter().map(|st| st.iter().map(|id| self.shadow.objs[id].addr).collect()).collect();
+            // in a nursery collection old values count as reachable without being traced, so the
+            // number of rounds is only predictable for collections that trace the whole heap
+            let generational = self.mmtk.get_plan().constraints().generational;
+            self.expected_weak_calls = if exhaustive || !generational { Some(stages.len()) } else { None };
+            self.stats.weak_extra_rounds += stages.len() as u64 - 1;
+            with_state(|s| s.expected_stages = stages);
+        }
         let ran = self.mmtk.handle_user_collection_request(mutator_tls(m), true, exhaustive);
         if !ran {
             return fail("gc:not_run", "forced user collection request was ignored".to_string());
         }
-        let after = with_state(|s| s.gc_count);
+        let after = with_state(|s| {
+            s.expected_stages.clear();
+            s.gc_count
+        });
         if after == before {
             return fail("gc:returned_early", "block_for_gc returned but no collection finished".to_string());
         }
@@ -471,6 +499,10 @@ impl World {
             self.stats.two_mutator_gcs += n;
         }
         let events = take_events();
+        if let Some(f) = with_state(|s| std::mem::take(&mut s.oracle_failures)).into_iter().next() {
+            let (sig, msg) = f.split_once('|').unwrap_or(("weak:oracle", &f));
+            return fail(sig, msg.to_string());
+        }
         let r = self.verify_heap(n);
         self.last_report.events = events;
         r?;
@@ -480,26 +512,68 @@ impl World {
             self.last_report.events = ev;
             r?;
         }
+        self.gc_traced_whole_heap = false;
+        if self.monitor_c13 {
+            let ev = std::mem::take(&mut self.last_report.events);
+            let exp = self.expected_weak_calls.take();
+            let r = crate::monitors::weak_rounds(&ev, self, exp);
+            self.last_report.events = ev;
+            r?;
+        }
         Ok(())
     }
 
     pub fn shadow_reachable(&self) -> HashSet<u64> {
-        let mut seen = HashSet::new();
+        self.shadow_reachable_stages().into_iter().flatten().collect()
+    }
+
+    /// Reachability in stages: stage 0 = strong closure of the roots; stage k = what becomes
+    /// reachable when the values of the ephemerons whose keys are in stages < k are traced.
+    pub fn shadow_reachable_stages(&self) -> Vec<Vec<u64>> {
+        let mut seen: HashSet<u64> = HashSet::new();
+        let mut stages = vec![];
         let mut stack: Vec<u64> = vec![];
         for r in self.shadow.roots.iter().flatten() {
             stack.extend(r.iter().flatten());
         }
         stack.extend(self.shadow.globals.iter().flatten());
         stack.extend(self.extra_shadow_roots());
-        while let Some(id) = stack.pop() {
-            if !seen.insert(id) {
-                continue;
+        loop {
+            let mut stage = vec![];
+            while let Some(id) = stack.pop() {
+                if !seen.insert(id) {
+                    continue;
+                }
+                stage.push(id);
+                if let Some(o) = self.shadow.objs.get(&id) {
+                    stack.extend(o.fields.iter().flatten());
+                }
             }
-            if let Some(o) = self.shadow.objs.get(&id) {
-                stack.extend(o.fields.iter().flatten());
+            let first = stages.is_empty();
+            if !stage.is_empty() || first {
+                stages.push(stage);
+            } else {
+                break;
+            }
+            // values whose key is reachable and that are not reachable yet
+            for (k, v) in &self.shadow.ephemerons {
+                if seen.contains(k) && !seen.contains(v) {
+                    stack.push(*v);
+                }
+            }
+            if stack.is_empty() {
+                break;
             }
         }
-        seen
+        stages
+    }
+
+    /// Register an ephemeron (key, value) with the binding's weak table.
+    pub fn add_ephemeron(&mut self, key: u64, value: u64) {
+        self.stats.ops += 1;
+        let (ka, va) = (self.shadow.objs[&key].addr, self.shadow.objs[&value].addr);
+        with_state(|s| s.ephemerons.push((ka, va)));
+        self.shadow.ephemerons.push((key, value));
     }
 
     /// Shadow roots other than mutator/global root slots (pinning roots, objects kept by the
@@ -535,6 +609,34 @@ impl World {
         }
         for (v, id, what) in EXTRA_REAL_ROOTS.with(|e| e.borrow().clone()) {
             work.push((read_word(unsafe { Address::from_usize(v) }), Some(id), what));
+        }
+        // the binding's ephemeron table: exactly the entries whose key is reachable survive, in
+        // order, and hold the (new) addresses of key and value
+        if !self.shadow.ephemerons.is_empty() {
+            let live: Vec<(u64, u64)> = self.shadow.ephemerons.iter().filter(|(k, _)| reachable.contains(k)).cloned().collect();
+            let real = with_state(|s| s.ephemerons.clone());
+            // Entries whose key is unreachable must be gone after a collection that traced the
+            // whole heap; a nursery collection legitimately keeps entries with old (not collected)
+            // keys, so there they are only skipped.
+            let mut real_live = vec![];
+            for (ka, va) in real.iter() {
+                let a = unsafe { Address::from_usize(*ka) };
+                let kid = if *ka != 0 && *ka % 8 == 0 && mmtk::memory_manager::is_mapped_address(a) { obj_id(ObjectReference::from_raw_address(a).unwrap()) } else { 0 };
+                if reachable.contains(&kid) {
+                    real_live.push((*ka, *va));
+                } else if self.gc_traced_whole_heap {
+                    return fail("weak:table", format!("the weak table still holds an entry whose key (id {}) is unreachable after a collection that traced the whole heap", kid));
+                }
+            }
+            if real_live.len() != live.len() {
+                return fail("weak:table", format!("the weak table holds {} entries with reachable keys after the collection, expected {}", real_live.len(), live.len()));
+            }
+            for (i, ((ka, va), (k, v))) in real_live.iter().zip(live.iter()).enumerate() {
+                work.push((*ka, Some(*k), format!("key of weak-table entry {}", i)));
+                work.push((*va, Some(*v), format!("value of weak-table entry {}", i)));
+            }
+            self.stats.weak_entries_died += (self.shadow.ephemerons.len() - live.len()) as u64;
+            self.shadow.ephemerons = live;
         }
         while let Some((val, expect, what)) = work.pop() {
             let Some(id) = expect else {
@@ -689,6 +791,8 @@ impl World {
         }
         EXTRA_ROOTS.with(|e| e.borrow_mut().clear());
         EXTRA_REAL_ROOTS.with(|e| e.borrow_mut().clear());
+        self.shadow.ephemerons.clear();
+        with_state(|s| s.ephemerons.clear());
         self.reclaimed_next_to_live = false;
         if self.collects {
             self.gc(0, true)?;
